@@ -47,3 +47,24 @@ void h_hex_to_bytes(void)
 	if (ret == 1) { CANARY("decoded"); }
 	CANARY("returned");
 }
+
+/* gmssl_memxor (src/hex.c): r = a xor b over len bytes, r may be a or b themselves (the contract every AEAD job assumes) */
+typedef struct { uint8_t a[32], b[32]; size_t len, gk; uint8_t alias; } mx_in;
+DECL_INPUT(mx_in);
+void gmssl_memxor(void *r, const void *a, const void *b, size_t len)
+REQUIRES(len >= 1 && len <= 70000 && WR_OK(r, len) && RD_OK(a, len) && RD_OK(b, len))
+/* exact aliasing or disjoint */
+REQUIRES(len == 0 || ((r == a || SEPARATE(r, a)) && (r == b || SEPARATE(r, b))))
+ASSIGNS(len != 0: OBJ_UPTO((uint8_t *)r, len))
+ENSURES(verif_gk < len IMPLIES ((const uint8_t *)r)[verif_gk] == (uint8_t)(OLD(((const uint8_t *)a)[verif_gk < len ? verif_gk : 0]) ^ OLD(((const uint8_t *)b)[verif_gk < len ? verif_gk : 0])))
+;
+//@job name=gmssl_memxor props=C04,C05 enforce=gmssl_memxor loops=1 timeout=900
+void h_gmssl_memxor(void)
+{
+	INPUT(mx_in, X); ASSUME(X.len >= 1 && X.len <= 4200); GK_BIND(X.gk)
+	MKBUF(a, X.a, X.len); MKBUF(b, X.b, X.len); uint8_t *r;
+	if ((X.alias & 3) == 1) r = a; else if ((X.alias & 3) == 2) r = b; else { r = malloc(X.len); ASSUME(r != NULL); }
+	gmssl_memxor(r, a, b, X.len);
+	NATIVE({ size_t i; int ok = 1; for (i = 0; i < X.len && i < 32; i++) if (r[i] != (uint8_t)(X.a[i] ^ X.b[i])) ok = 0; CHECK(ok, "r == a xor b (first 32 bytes)"); })
+	CANARY("returned");
+}
